@@ -113,7 +113,7 @@ def scale_homogeneous(ctx):
         if isinstance(call.func, ast.Attribute) and call.func.attr == 'k':
             return A('K')
     ev = fn_eval(P, f, sym=sym, inline=inl,
-                 choose=lambda t, e: True if 'material' in unparse(t) else None)
+                 choose=lambda t, e: True if 'material' in unparse(t) else (False if isinstance(t, ast.Name) else None))
     dims = _dims()
     for k in ('self.x', 'self.y', 'self.z'):
         _check_grade(res, ctx, f, f'propagate {k}', ev.heap[k], GL, dims, sym)
@@ -630,4 +630,9 @@ def c01_init_stores(ctx):
     return _r(ctx)
 
 
-RULES = [c01_arg_wiring_rule, c01_init_stores, scale_homogeneous, scale_system, scale_relies_on_thickness_edit, mirror, w_flow, dummy_identity]
+def c04_chief_ray(ctx):
+    """shared with C04: the paraxial chief ray of the maximum (radial) field"""
+    from .C04 import chief_ray as _r
+    return _r(ctx)
+
+RULES = [c04_chief_ray, c01_arg_wiring_rule, c01_init_stores, scale_homogeneous, scale_system, scale_relies_on_thickness_edit, mirror, w_flow, dummy_identity]
